@@ -124,6 +124,7 @@ class Engine:
         self.contract_uses = []
         self.loop_ordinals = {}
         self.spec_defs = {}
+        self.abort_paths = True
 
     # ------------------------------------------------------------------ utilities
     def oblige(self, kind, st, goal, note="", extra=None, oid=None):
@@ -254,6 +255,22 @@ class Engine:
                 if len(ha.items) != len(hb.items):
                     return False
                 return self._and([self.eq(x, y, st) for x, y in zip(ha.items, hb.items)])
+            if isinstance(ha, HDict) and isinstance(hb, HDict):
+                parts = []
+                for k in set(ha.keys) | set(hb.keys):
+                    pa = ha.pres.get(k, False)
+                    pb = hb.pres.get(k, False)
+                    if pa is False or pb is False:
+                        other = pb if pa is False else pa
+                        parts.append(self._not(other) if other is not False else True)
+                        continue
+                    same_p = True if (pa is True and pb is True) else (
+                        (z3.BoolVal(pa) if isinstance(pa, bool) else pa) == (z3.BoolVal(pb) if isinstance(pb, bool) else pb))
+                    parts.append(same_p)
+                    ve = self.eq(ha.vals[k], hb.vals[k], st)
+                    both = self._and([pa, pb])
+                    parts.append(self._or([self._not(both), ve]))
+                return self._and(parts)
             raise Unsupported("== on heap objects")
         if isinstance(a, Ref) or isinstance(b, Ref):
             ra, other = (a, b) if isinstance(a, Ref) else (b, a)
@@ -845,6 +862,10 @@ class Engine:
                 p = h.pres[i]
                 if p is True:
                     return [(h.vals[i], st)]
+                if self.mode != "exec":
+                    if smt.quick_check(st.pc, z3.Not(p)) == "unsat":
+                        return [(h.vals[i], st)]
+                    raise NeedFork()
                 res = []
                 for flag, s2 in self.fork(p, st):
                     if flag:
@@ -1138,7 +1159,14 @@ class Engine:
                 if kind != "ok":
                     nxt.append((kind, val, s))
                     continue
-                res = self.exec_stmt(stmt, s)
+                if self.mode == "exec" and self.abort_paths:
+                    snap = s.copy()
+                    try:
+                        res = self.exec_stmt(stmt, s)
+                    except Unsupported as e:
+                        res = [("abort", str(e), snap)]
+                else:
+                    res = self.exec_stmt(stmt, s)
                 for k2, v2, s2 in res:
                     if k2 == "ok":
                         self.after_stmt(stmt, s2)
